@@ -12,6 +12,7 @@
 (*     the sleeping workers                                                            *)
 (*   - when no operation is in flight but some worker is inside its turn ("rest",    *)
 (*     puppet replays only), no worker sleeps while the GLOBAL ring holds work         *)
+(*   - no operation of the queue panics ("panic")                                      *)
 (*   - after close every worker leaves take ("joined": ws = workers that did not)      *)
 (* Every line is consumed; violations are printed as <<"MISMATCH", line, kind, x>>.    *)
 EXTENDS Integers, Sequences, FiniteSets, TLC, Json
@@ -69,6 +70,9 @@ Step ==
        [] e.ev = "rest" ->
             /\ IF e.ws # <<>> /\ e.g > 0 /\ ~closeCalled THEN Check(FALSE, "parked-with-global-work", <<e.ws, e.g>>)
                ELSE Check(closeCalled \/ e.n = Len(e.ws), "parked-count", <<e.n, e.ws>>)
+            /\ UNCHANGED <<issued, taken, drained, closeCalled>>
+       [] e.ev = "panic" ->
+            /\ Check(FALSE, "panic", <<e.t, e.run>>)
             /\ UNCHANGED <<issued, taken, drained, closeCalled>>
        [] e.ev = "joined" ->
             /\ Check(e.ws = <<>>, "not-exited-after-close", e.ws)
